@@ -86,6 +86,14 @@ def space(tier):
                 for w in WIDTHS[:2] if tier == "quick" else WIDTHS:
                     for tiled in (True, False):
                         cases.append(("mm", ps, order, w, tiled))
+    # sparse coverage: the inner iterator's bound is smaller than the outer iterator's multiplier (rows 0,1, 8,9, 16,17, ... of a dimension)
+    for sp in ((4, 2, 8), (2, 2, 4), (2, 3, 8), (3, 4, 8)):
+        for sub in range(1, 8):
+            ps = tuple(sp if sub >> d & 1 else (2, 8) for d in range(3))
+            for order in itertools.permutations(range(3)):
+                for w in WIDTHS[:2] if tier == "quick" else WIDTHS:
+                    for tiled in (True, False):
+                        cases.append(("mm", ps, order, w, tiled))
     for k in (1, 2, 3) if tier == "quick" else (1, 2, 3, 4, 5, 7):
         for oo in (1, 2, 4) if tier == "quick" else (1, 2, 3, 4, 5):
             for w in (8, 32, 64) if tier == "quick" else (8, 16, 32, 64):
@@ -233,14 +241,17 @@ def build(case):
         _, (pm, pn, pk), order, w, tiled = case
         outer = [pm[0], pn[0], pk[0]]
         inner = [pm[1], pn[1], pk[1]]
-        M, N, K = pm[0] * pm[1], pn[0] * pn[1], pk[0] * pk[1]
+        # a third component is the multiplier of the outer iterator when it differs from the inner bound (a schedule that does not cover the
+        # dimension densely: index = mult * outer + inner with inner bound < mult); the dimension then has outer * mult elements
+        mult = [p[2] if len(p) > 2 else p[1] for p in (pm, pn, pk)]
+        M, N, K = pm[0] * mult[0], pn[0] * mult[1], pk[0] * mult[2]
         # schedule dims: outer loops in `order`, then inner (m, n, k)
         cols = 6
         pos_outer = {d: i for i, d in enumerate(order)}  # dim d (0=m,1=n,2=k) sits at column pos_outer[d]
 
         def row(d):
             r = [0] * cols
-            r[pos_outer[d]] = inner[d]
+            r[pos_outer[d]] = mult[d]
             r[3 + d] = 1
             return r
 
